@@ -44,13 +44,32 @@ fn main() {
             let inp = std::fs::File::open(&args[2]).expect("open cases");
             let out = std::fs::File::create(&args[3]).expect("create trace");
             let mut w = BufWriter::new(out);
+            let mut ncase = 0u64;
+            let (to_worker, worker_in) = std::sync::mpsc::channel::<time::TCase>();
+            let (worker_out, from_worker) = std::sync::mpsc::channel();
+            std::thread::spawn(move || {
+                for case in worker_in {
+                    worker_out.send(time::run_tcase(&case)).unwrap();
+                }
+            });
             for line in std::io::BufReader::new(inp).lines() {
                 let line = line.unwrap();
                 if line.trim().is_empty() {
                     continue;
                 }
                 let case: time::TCase = serde_json::from_str(&line).expect("bad timer case");
-                for l in time::run_tcase(&case) {
+                // timers are made on the main thread, on a long-lived worker and on fresh threads in turn: ids
+                // are promised to be unique in the process, not per thread
+                ncase += 1;
+                let lines = match ncase % 4 {
+                    1 => std::thread::scope(|s| s.spawn(|| time::run_tcase(&case)).join().expect("timer case panicked")),
+                    2 => {
+                        to_worker.send(case).unwrap();
+                        from_worker.recv().expect("timer worker died")
+                    }
+                    _ => time::run_tcase(&case),
+                };
+                for l in lines {
                     serde_json::to_writer(&mut w, &l).unwrap();
                     w.write_all(b"\n").unwrap();
                 }
